@@ -35,6 +35,12 @@ class Drv:
         self.calls = 0
         self.max_passes = 0
 
+    def pick(self):
+        """own counter for the choice of the ellipsoid (the loop counters are sub-sampled with strides in quick: k % 6 of every second /
+        third k would never reach some ellipsoids)"""
+        self.npick = getattr(self, "npick", -1) + 1
+        return self.npick
+
     def fresh(self, ell):
         """caller-built ellipsoids are re-built for every use and dropped afterwards: short-lived objects, recycled ids"""
         en, E = ell
@@ -161,7 +167,7 @@ def run(ctx):
                 n += 1
                 if quick and n % 3:
                     continue
-                ell = d.fresh(ells[n % 6])
+                ell = d.fresh(ells[d.pick() % 6])
                 E = ell[1]
                 hemi = "south" if lat < 0 else "north"
                 n1 = cv.geo2grid(lat + rnd.uniform(-0.4, 0.4), float(cm), zone, E)[3]
@@ -201,7 +207,7 @@ def run(ctx):
                 k += 1
                 if quick and k % 2:
                     continue
-                ell = d.fresh(ells[k % 6])
+                ell = d.fresh(ells[d.pick() % 6])
                 E = ell[1]
                 hemi = "south" if lat < 0 else "north"
                 n1 = cv.geo2grid(lat, float(cm), zone, E)[3]
@@ -219,7 +225,7 @@ def run(ctx):
         for j, t2 in enumerate(tris):
             if t1 == t2 or (quick and (i + j) % 4):
                 continue
-            ell = d.fresh(ells[(i + j) % 6])
+            ell = d.fresh(ells[d.pick() % 6])
             evs.append(d.cm_event([1, 30, 55, 60][(i + j) % 4], t1, t2, ell, "cm north"))
             if math.degrees(math.atan2(t1[0], t1[1])) <= 79 and math.degrees(math.atan2(t2[0], t2[1])) <= 79:
                 evs.append(d.cm_event([1, 30, 55, 60][(i + j + 1) % 4], (-t1[0], t1[1], t1[2]), (-t2[0], t2[1], t2[2]), ell, "cm south"))
